@@ -77,6 +77,55 @@ def compare(rep, what, f, Q, subs, scale, info, sorted_only=False):
                           {**info, "query_full": C.hexf(Q), "query_sub": C.hexf(S), "set": name})
 
 
+def integer_queries(rep):
+    """Whole-number locations (days, indices) given as INTEGER arrays are the same locations as the same numbers as floats:
+    the value at a location does not depend on the dtype of the query array, nor on which other locations come with it."""
+    from FDApy.preprocessing.smoothing.psplines import PSplines
+    from FDApy.preprocessing.smoothing.local_polynomial import LocalPolynomial
+    rng = np.random.default_rng([C.seed(), 7, 31])
+    for rnd in range(3):
+        m = int(rng.integers(24, 41))
+        xi = np.arange(1, m + 1)
+        xf = xi.astype(float)
+        y = np.round((10.0 * np.sin(xf / 6.0) + rng.normal(size=m)) * 64) / 64
+        qi = np.arange(2, m, int(rng.integers(2, 5)))
+        halves = np.sort(np.concatenate([qi.astype(float), qi[:-1] + 0.5]))
+        bad = []
+        for kern, deg in (("epanechnikov", 1), ("gaussian", 2), ("epanechnikov", 0)):
+            with warnings.catch_warnings():
+                warnings.simplefilter("ignore")
+                try:
+                    mk = lambda: LocalPolynomial(kernel_name=kern, bandwidth=6.0, degree=deg)   # noqa: E731
+                    ref = np.asarray(mk().predict(y=y, x=xf, x_new=qi.astype(float)), float)
+                    got_i = np.asarray(mk().predict(y=y, x=xf, x_new=qi), float)
+                    sup = np.asarray(mk().predict(y=y, x=xf, x_new=halves), float)[np.searchsorted(halves, qi.astype(float))]
+                    at_x_f = np.asarray(mk().predict(y=y, x=xf), float)
+                    at_x_i = np.asarray(mk().predict(y=y, x=xi), float)
+                except Exception as e:  # noqa: BLE001
+                    bad.append(f"LocalPolynomial({kern}, degree={deg}) raised {type(e).__name__}: {str(e)[:80]}")
+                    continue
+            sc = max(1.0, float(np.max(np.abs(y))))
+            for lab, a_, b_ in (("an integer-dtype query differs from the same locations as floats", got_i, ref),
+                                ("a float superset of the query gives other values at the common locations", sup, ref),
+                                ("integer-dtype sampling points (x_new=None) differ from the same points as floats", at_x_i, at_x_f)):
+                if a_.shape != b_.shape or np.max(np.abs(a_ - b_)) > 1e-9 * sc:
+                    bad.append(f"LocalPolynomial({kern}, degree={deg}): {lab} (max "
+                               f"{float(np.max(np.abs(a_ - b_))) if a_.shape == b_.shape else float('nan'):.3g})")
+        with warnings.catch_warnings():
+            warnings.simplefilter("ignore")
+            try:
+                ps = PSplines(n_segments=5, degree=3)
+                ps.fit(y, xf, penalty=1.0)
+                pf, pi = np.asarray(ps.predict(qi.astype(float)), float), np.asarray(ps.predict(qi), float)
+                if pf.shape != pi.shape or np.max(np.abs(pf - pi)) > 1e-9 * max(1.0, float(np.max(np.abs(y)))):
+                    bad.append("PSplines.predict: an integer-dtype query differs from the same locations as floats")
+            except Exception as e:  # noqa: BLE001
+                bad.append(f"PSplines with an integer-dtype query raised {type(e).__name__}: {str(e)[:80]}")
+        rep.case(("integer-queries", rnd, y.tobytes()), kind="integer-dtype-queries")
+        if bad:
+            rep.violation("whole-number locations: " + "; ".join(bad), {"x": xi.tolist(), "y": C.hexf(y), "query": qi.tolist()})
+
+
 def run(rep, props, replay=None):
     from FDApy.preprocessing.smoothing.psplines import PSplines
     from FDApy.preprocessing.smoothing.local_polynomial import LocalPolynomial
@@ -85,6 +134,7 @@ def run(rep, props, replay=None):
     rng = np.random.default_rng([C.seed(), 7])
     runq = C.CoqRun("C07", IMPORTS, shard=6)
     todo = []
+    integer_queries(rep)
     domains = [(0.0, 1.0), (-1.0, 0.0), (1.0, 365.0), (100.0, 101.0)]
     n_cases = 4 if quick else 40
     for i in range(n_cases):
